@@ -31,7 +31,12 @@ type File struct {
 	Name   string
 	Data   []byte
 	IOErr  bool  // the reader fails (non-EOF error) after Data
-	Chunks []int // implementation only: sizes of successive reads (nil = all at once)
+	Chunks []int // implementation only: sizes of successive reads (nil = all at once); a negative entry is a Read that returns (0, nil)
+	// DataErr (implementation only): the Read call that hands out the last bytes of Data
+	// returns the terminal error (io.EOF, or the I/O error of IOErr) in the SAME call, as
+	// the io.Reader contract allows (cf. testing/iotest.DataErrReader). On the wire: a
+	// trailing "!" on the chunk list; a (0, nil) read is the token "z".
+	DataErr bool
 }
 
 // RunReq builds a "run" request line.
@@ -53,12 +58,18 @@ func RunReq(prog string, sels []string, files []File, wantJSON bool) string {
 				tail = "i"
 			}
 			ch := ""
-			if len(x.Chunks) > 0 {
+			if len(x.Chunks) > 0 || x.DataErr {
 				cs := make([]string, len(x.Chunks))
 				for j, c := range x.Chunks {
 					cs[j] = fmt.Sprint(c)
+					if c < 0 {
+						cs[j] = "z"
+					}
 				}
 				ch = ":" + strings.Join(cs, ",")
+				if x.DataErr {
+					ch += "!"
+				}
 			}
 			parts[i] = hxs(x.Name) + ":" + hx(x.Data) + ":" + tail + ch
 		}
